@@ -134,20 +134,38 @@ def _strip_doc(body: List[ast.stmt]) -> List[ast.stmt]:
 
 # ----------------------------------------------------------------------------- inlining one call
 def _expr_form(h: "Helper") -> Optional[ast.AST]:
-    """The helper as one expression of its parameters (straight-line single-assignment temporaries + return), or None."""
-    body = _strip_doc(h.node.body)
-    if not body or not isinstance(body[-1], ast.Return) or body[-1].value is None:
-        return None
-    temps: Dict[str, ast.AST] = {}
+    """The helper as one expression of its parameters, or None: straight-line single-assignment temporaries, `if c: return a`
+    clauses (-> conditional expressions) and a final return."""
     params = {a.arg for a in h.node.args.args} | {a.arg for a in h.node.args.kwonlyargs}
-    for st in body[:-1]:
-        if not (isinstance(st, ast.Assign) and len(st.targets) == 1 and isinstance(st.targets[0], ast.Name)):
-            return None
-        nm = st.targets[0].id
-        if nm in temps or nm in params:
-            return None
-        temps[nm] = _Rename({}, dict(temps)).visit(copy.deepcopy(st.value))
-    return _Rename({}, dict(temps)).visit(copy.deepcopy(body[-1].value))
+
+    def block(stmts: List[ast.stmt], temps: Dict[str, ast.AST]) -> Optional[ast.AST]:
+        temps = dict(temps)
+        for i, st in enumerate(stmts):
+            if isinstance(st, ast.Assign) and len(st.targets) == 1 and isinstance(st.targets[0], ast.Name):
+                nm = st.targets[0].id
+                if nm in temps or nm in params:
+                    return None
+                temps[nm] = _Rename({}, dict(temps)).visit(copy.deepcopy(st.value))
+            elif isinstance(st, ast.Return):
+                if st.value is None:
+                    return None
+                return _Rename({}, dict(temps)).visit(copy.deepcopy(st.value))
+            elif isinstance(st, ast.If):
+                if not _always_returns(st.body) or any(isinstance(x, ast.Raise) for x in ast.walk(st)):
+                    return None
+                yes = block(st.body, temps)
+                no = block(list(st.orelse) + list(stmts[i + 1:]), temps)
+                if yes is None or no is None:
+                    return None
+                test = _Rename({}, dict(temps)).visit(copy.deepcopy(st.test))
+                return ast.IfExp(test=test, body=yes, orelse=no)
+            else:
+                return None
+        return None
+    body = _strip_doc(h.node.body)
+    if not body:
+        return None
+    return block(body, {})
 
 
 class _Rename(ast.NodeTransformer):
